@@ -121,6 +121,21 @@ pub fn lcg(state: &mut u64) -> u64 {
     x ^ (x >> 29)
 }
 
+/// Deterministic dense digit string number `salt` of length `len`: LCG digits (no structure), top
+/// digit right-shifted by `7*salt mod 64` bits so that the family covers many normalisation
+/// shifts and top-digit widths.  This is a fixed finite family that is enumerated completely --
+/// not a sample from a distribution.
+pub fn lcg_digits(len: usize, salt: u64) -> Vec<u64> {
+    if len == 0 {
+        return Vec::new();
+    }
+    let mut s = 0xA076_1D64_78BD_642Fu64 ^ salt.wrapping_mul(0xE703_7ED1_A0B4_28DB) ^ ((len as u64) << 32);
+    let mut v: Vec<u64> = (0..len).map(|_| lcg(&mut s)).collect();
+    let sh = (7 * salt) % 64;
+    v[len - 1] = (v[len - 1] >> sh) | 1;
+    v
+}
+
 pub const NPAT: usize = 12;
 pub const PAT_NAMES: [&str; NPAT] = [
     "allM", "all1", "top1", "lo0hiM", "loMhi1", "thirdsM0M", "thirds0M1", "botMtop1", "period3", "period7z", "lcgdense", "lcgpalin",
